@@ -168,6 +168,9 @@ type World struct {
 	Projects []*types.Project
 
 	Clients []*SimClient
+	// Graveyard holds client objects whose process is gone (vanished,
+	// replaced): the server may still consider them attached.
+	Graveyard []*SimClient
 	// ActorNames maps every actor id ever handed out to "c<slot>" / "c<slot>.<gen>".
 	ActorNames map[string]string
 
